@@ -938,8 +938,9 @@ func applyBit(ctx Context, doc bsonkit.Doc, name, path string, v interface{}) er
 		resultVal = int32(result)
 	}
 
-	// no-op if value would not change
-	if field != bsonkit.Missing && bsonkit.Compare(field, resultVal) == 0 {
+	// no-op if neither value nor type would change (an int32 field combined
+	// with an int64 operand is promoted even if the number stays the same)
+	if field == resultVal {
 		return nil
 	}
 
